@@ -147,13 +147,14 @@ theorem visit_step (ops : Ops W) (rdy : Ready) {d : Daemon W} {A B : List (Conn 
   · intro h
     rw [show (chLocal ops d.epoll c .active (rdyR rdy c.id) (rdyW rdy c.id) (rdyE rdy c.id)) = visitRes ops d.epoll rdy c from rfl, F.eready, hep h]
     cases c.inEready <;> simp
-  · rw [F.conns, F.susp, F.cleanup, hc]
-    have hid : (chLocal ops d.epoll c .active (rdyR rdy c.id) (rdyW rdy c.id) (rdyE rdy c.id)).c.id = c.id :=
-      (chLocal_static _ _ _ _ _ _ _).id
+  · show (ids (finishCH d c (visitRes ops d.epoll rdy c)).conns ++ ids (finishCH d c (visitRes ops d.epoll rdy c)).susp ++
+        ids (finishCH d c (visitRes ops d.epoll rdy c)).cleanup).Perm (ids d.conns ++ ids d.susp ++ ids d.cleanup)
+    rw [F.conns, F.susp, F.cleanup, hc]
+    have hid : (visitRes ops d.epoll rdy c).c.id = c.id := (chLocal_static _ _ _ _ _ _ _).id
     rw [List.perm_iff_count]
     intro y
-    cases hw : (chLocal ops d.epoll c .active (rdyR rdy c.id) (rdyW rdy c.id) (rdyE rdy c.id)).wh <;>
-      simp only [hw, if_true, if_false, reduceCtorEq, ids_append, ids_cons, List.count_append, List.count_cons, hid] <;> omega
+    cases hw : (visitRes ops d.epoll rdy c).wh <;>
+      simp only [if_true, if_false, reduceCtorEq, ids_append, ids_cons, List.count_append, List.count_cons, hid] <;> omega
 
 theorem TravSpec.comp {ops : Ops W} {rdy : Ready} {d d1 d2 : Daemon W} {P V1 V2 B : List (Conn W)}
     (h1 : TravSpec ops rdy d d1 (P ++ V2) V1 B)
